@@ -1,6 +1,6 @@
 (* C11 — garbage collection actually reclaims space, in bounded cycles (one-cycle reclamation theorems). *)
 From Coq Require Import List NArith.
-From STH Require Import Log Lex Index Store GCIndex Refine GInv Reclaim ReclaimIdx Idem.
+From STH Require Import Log Lex Index Store GCIndex Refine GInv Reclaim ReclaimIdx Idem Crash2 Statements Storage.
 Import ListNotations.
 Open Scope N_scope.
 
@@ -45,3 +45,34 @@ Theorem C11_second_reap_of_an_index_file_writes_nothing :
   forall ix f, let '(ix1, stale) := reap_index_file ix f in reap_index_file ix1 f = (ix1, stale).
 Proof. exact reap_index_file_idempotent. Qed.
 Print Assumptions C11_second_reap_of_an_index_file_writes_nothing.
+
+(* ---- the storage clause ("GC never increases the storage reported by the store except by the records it relocates") ----
+   A primary cycle, started in ANY state and with any low-use threshold (it flushes the primary's write pool first): no primary
+   file is longer after the cycle than after that flush; every record the cycle leaves in the write pool is a copy of a record
+   that stood live in a file, and there are at most two of them per file number up to the current one. *)
+Theorem C11_primary_cycle_lengthens_no_file_and_writes_only_relocated_records :
+  forall lu s,
+    (forall f, fsize (pfiles (spri (primary_gc lu s))) f <= fsize (pfiles (pri_flush (spri s))) f) /\
+    pool_from (pfiles (pri_flush (spri s))) (pnext (spri (primary_gc lu s))) /\
+    (length (pnext (spri (primary_gc lu s))) <= 2 * S (N.to_nat (flFile (pri_flush (spri s)))))%nat.
+Proof. exact primary_gc_storage_flushed_first. Qed.
+Print Assumptions C11_primary_cycle_lengthens_no_file_and_writes_only_relocated_records.
+
+(* An index cycle (either scan-free flag), started in any state, lengthens no index file. *)
+Theorem C11_index_cycle_lengthens_no_file :
+  forall sf ix f, isize (ifiles (index_gc sf ix)) f <= isize (ifiles ix) f.
+Proof. exact index_gc_storage. Qed.
+Print Assumptions C11_index_cycle_lengthens_no_file.
+
+(* non-vacuity, and the low-use clause on a concrete store: file 0 (39 bytes, one live record, 50 % threshold) keeps its length
+   in the first cycle, which puts exactly the live record into the write pool; after the flush the next cycle unlinks it and
+   writes nothing. *)
+Theorem C11_low_use_file_is_drained_then_released_witness :
+  let s := run_state (init 8 40 30 false) storage_witness in
+  let s1 := primary_gc 50 s in
+  let s2 := primary_gc 50 (fst (step s1 (OFlush [7]))) in
+  pnext (spri s) = [] /\ fsize (pfiles (spri s)) 0 = 39 /\
+  map p_key (pnext (spri s1)) = [k1] /\ fsize (pfiles (spri s1)) 0 = 39 /\
+  pnext (spri s2) = [] /\ fsize (pfiles (spri s2)) 0 = 0.
+Proof. exact storage_witness_relocates. Qed.
+Print Assumptions C11_low_use_file_is_drained_then_released_witness.
